@@ -178,6 +178,17 @@ def register(w):
     ]
     HINTS_AFTER = [f"assert implies({P0}, okn(state, {A}))"]
 
+    PC = f"fresh_chain(states_to_enter, old({A}))"
+    CHAIN_INV = [
+        # (inductive) every element of the chain lies in the subtree of its first element
+        f"implies({PC}, forall[int](lambda j: implies(0 <= j and j <= _i and j < len({L_}), anc({L_}[j], {L_}[0]) and {L_}[j].depth == {L_}[0].depth + j), lambda j: {L_}[j]))",
+        f"implies({PC}, forall[Node](lambda n: implies(n in {A} and not (n in old({A})), anc(n, {L_}[0]))))",
+        f"implies({PC} and _i < len({L_}), forall[Node](lambda n: implies(anc(n, {L_}[_i]), not (n in {A}))))",
+        f"implies({PC}, forall[Node](lambda n: implies(n in {A} and not (n in old({A})), n == {L_}[0] or n.parent in {A})))",
+        f"implies({PC}, forall[Node](lambda n: implies(n in {A} and not (n in old({A})), (0 < _i and _i < len({L_}) and n == {L_}[_i - 1]) or okn(n, {A}))))",
+        f"implies({PC} and 0 < _i and _i < len({L_}), pending({L_}[_i - 1], {A}, {L_}[_i]))",
+    ]
+
     def enter_clauses(c):
         c.param("states_to_enter", ListSort(Node)).param("event", Ev)
         c.defaults = {"event": "None"}
@@ -191,6 +202,8 @@ def register(w):
         c.ens(f"implies(fresh_forest(states_to_enter, old({A})), forall[Node](lambda n: implies(n in {A} and not (n in old({A})), "
               f"(exists[int](lambda i: 0 <= i and i < len(states_to_enter) and n == states_to_enter[i]) or n.parent in {A}) and okn(n, {A}))))",
               label="a-fresh-forest-is-entered-legally")
+        c.ens(f"implies(fresh_chain(states_to_enter, old({A})), forall[Node](lambda n: implies(n in {A} and not (n in old({A})), "
+              f"(n == states_to_enter[0] or n.parent in {A}) and okn(n, {A}))))", label="a-fresh-chain-is-entered-legally")
         c.ens(E1, label="entering-exits-nothing")
         c.ens(E2, label="every-listed-state-is-entered")
         c.ens(E3, label="only-listed-states-and-their-descendants-are-entered")
@@ -217,6 +230,11 @@ def register(w):
         c.label_props = {"every-entered-state-has-its-tasks-scheduled": ["C08", "C09", "C01"]}
         c.ens("forall[int](lambda i: implies(0 <= i and i < len(states_to_enter), final_scheduled[states_to_enter[i]]))",
               label="ghost:every-entered-state-has-its-tasks-scheduled")
+        # ground instance: the next element of the chain makes this state an "explicit" parent (so the default descent is skipped)
+        c.after("self._active_state_nodes.add(state)", f"assert implies({PC} and _i + 1 < len({L_}), {L_}[_i + 1].parent == state and state.id in explicit_children and {L_}[_i + 1].id in explicit_child_ids)")
+        c.after("regions = ...",
+                f"assert implies({PC} and _i + 1 < len({L_}), forall[Node](lambda c: implies(c != None and c.parent == state and c.type != 'history' and c != {L_}[_i + 1], exists[int](lambda k: 0 <= k and k < len(regions) and regions[k] == c))))")
+        c.after("self._enter_states(regions, event)", f"assert implies({PC} and _i + 1 < len({L_}), pending(state, {A}, {L_}[_i + 1]))")
         c.before("self._enter_states([initial_child], event)", "ghostarg_hb = height(state)", *HINTS_CHILD_BEFORE)
         c.after("self._enter_states([initial_child], event)",
                 f"assert initial_child != None",
@@ -232,7 +250,7 @@ def register(w):
             f"forall[int](lambda j: implies(0 <= j and j < _i, states_to_enter[j] in {A}))",
             E3, APP_E, "status_reach(old(self.status), self.status)", ANN_E,
             "forall[int](lambda j: implies(0 <= j and j < _i, scheduled[states_to_enter[j]]))",
-            *FOREST_INV,
+            *FOREST_INV, *CHAIN_INV,
         ])
 
     @w.contract(BI + "_enter_states", props=["C01", "C03", "C05", "C09"])
@@ -257,13 +275,17 @@ def register(w):
                 *HINTS_AFTER)
         c.before("await self._enter_states(regions, trigger_event)", "ghostarg_hb = height(state)", *HINTS_REGIONS_BEFORE)
         c.after("await self._enter_states(regions, trigger_event)", *HINTS_AFTER)
+        c.after("self._active_state_nodes.add(state)", f"assert implies({PC} and _i + 1 < len({L_}), {L_}[_i + 1].parent == state and state.id in explicit_children and {L_}[_i + 1].id in explicit_child_ids)")
+        c.after("regions = ...",
+                f"assert implies({PC} and _i + 1 < len({L_}), forall[Node](lambda c: implies(c != None and c.parent == state and c.type != 'history' and c != {L_}[_i + 1], exists[int](lambda k: 0 <= k and k < len(regions) and regions[k] == c))))")
+        c.after("await self._enter_states(regions, trigger_event)", f"assert implies({PC} and _i + 1 < len({L_}), pending(state, {A}, {L_}[_i + 1]))")
         c.loop(0, inv=[
             f"forall[Node](lambda n: implies(n in old({A}), n in {A}))",
             f"forall[int](lambda j: implies(0 <= j and j < _i, states_to_enter[j] in {A}))",
             E3, APP_E, "status_reach(old(self.status), self.status)", ANN_E,
             "forall[int](lambda j: implies(0 <= j and j < _i, scheduled[states_to_enter[j]]))",
             "trigger_event != None",
-            *FOREST_INV,
+            *FOREST_INV, *CHAIN_INV,
         ])
 
     @w.contract(BI + "_resolve_output", props=["C10"])
